@@ -12,6 +12,7 @@ import pyir_classify
 import pyir_failure
 import pyir_loop
 import pyir_policy
+import pyir_sugar
 import pyir_sleep
 import pyir_translate
 
@@ -244,15 +245,49 @@ def policy_tie(chk):
                                "listed under pinned_helpers: pinned by digest, their meaning is Policy.do_allow / do_settle / nr_outcome"]}
 
 
+SUGAR_THEOREMS = ["forwarding_tables_ok", "all_sites_present", "site_ok_handed", "site_ok_complete", "defaults_agree"]
+
+
+def sugar_tie(chk):
+    """the delegating layers (wrappers.py, context.py, decorator.py, the constructors / from_config / context() of the policy classes,
+    RetryConfig) -> forwarding tables and default tables + obligations (coq/templates/SugarIRProofs.v.in): every delegation hands over
+    every parameter of its callee under its own name (up to the documented renames) and every layer repeats the base defaults."""
+    out = os.path.join(chk.workdir, "SugarIR.v")
+    tpl = os.path.join(common.COQ, "templates", "SugarIRProofs.v.in")
+    try:
+        info = pyir_sugar.generate(os.path.join(common.REPO, "src"), out, tpl)
+    except pyir_translate.TranslationError as e:
+        return {"ok": False, "stage": "translate", "detail": f"a delegating layer is outside the translated fragment: {e}"}
+    except (OSError, SyntaxError, KeyError, AttributeError, IndexError) as e:
+        return {"ok": False, "stage": "translate", "detail": f"the delegating layers could not be read: {type(e).__name__}: {e}"}
+    rc, stdout, stderr, wall = common.run(["coqc", "-w", "none", out], 300, cwd=chk.workdir)
+    if rc != 0:
+        where = "SugarIR.v"
+        m = re.search(r"line (\d+)", stderr)
+        if m:
+            lines = open(out).read().split("\n")
+            for k in range(int(m.group(1)) - 1, -1, -1):
+                mm = re.match(r"\s*(Lemma|Theorem)\s+(\w+)", lines[k])
+                if mm:
+                    where = mm.group(2)
+                    break
+        return {"ok": False, "stage": "proof", "theorem": where,
+                "detail": f"a delegation no longer hands every parameter over under its own name, or a default differs ({where}): "
+                          f"{stderr.strip()[-400:]}"}
+    return {"ok": True, "stage": "done", "theorems": SUGAR_THEOREMS, "closed_under_global_context": stdout.count("Closed under the global context"),
+            "seconds": round(wall, 1), "sites": info["sites"], "layers": info["layers"],
+            "not_translated": ["RetryPolicy.__getattr__ / __setattr__ (driven by the correspondence: entry point retrypolicyattr)"]}
+
+
 def report(chk, tie, name, searched):
     """shared bookkeeping: coverage, obligations, and the violation when the tie is broken and nothing else was found"""
     key = "source_translation" if "source_translation" not in chk.coverage else f"source_translation_{name}"
     chk.coverage[key] = {k: v for k, v in tie.items() if k != "ir"}
-    n = len(tie.get("theorems") or {"circuit": CIRCUIT_THEOREMS, "classify": CLASSIFY_THEOREMS, "failure": FAILURE_THEOREMS, "sleep": SLEEP_THEOREMS, "loop": LOOP_THEOREMS, "policy": POLICY_THEOREMS}.get(name, THEOREMS))
+    n = len(tie.get("theorems") or {"circuit": CIRCUIT_THEOREMS, "classify": CLASSIFY_THEOREMS, "failure": FAILURE_THEOREMS, "sleep": SLEEP_THEOREMS, "loop": LOOP_THEOREMS, "policy": POLICY_THEOREMS, "sugar": SUGAR_THEOREMS}.get(name, THEOREMS))
     chk.coverage["obligations"] = chk.coverage.get("obligations", 0) + n
     if tie["ok"]:
         chk.coverage["discharged"] = chk.coverage.get("discharged", 0) + n
-        mod = {"circuit": "CircuitIR", "classify": "ClassifyIR", "failure": "FailureIR", "sleep": "SleepIR", "loop": "LoopIR", "policy": "PolicyIR"}.get(name, "BudgetIR")
+        mod = {"circuit": "CircuitIR", "classify": "ClassifyIR", "failure": "FailureIR", "sleep": "SleepIR", "loop": "LoopIR", "policy": "PolicyIR", "sugar": "SugarIR"}.get(name, "BudgetIR")
         chk.coverage["theorems"] = list(chk.coverage.get("theorems", [])) + [f"{mod}.{t}" for t in tie["theorems"]]
     elif not chk.violations:
         chk.violation({"kind": "source-translation", "what": tie["detail"], "stage": tie["stage"],
